@@ -49,6 +49,11 @@ func genC10Req(t *rapid.T) C10Req {
 		// tail-side pruning between two requests: what was served (and cached) before must not be served after
 		r.Kind = "prune"
 		r.HashAt = rapid.IntRange(1, 3).Draw(t, "prunek")
+		if rapid.Bool().Draw(t, "rollback") {
+			// head-side roll-back between two requests: the last HashAt headers are deleted and another branch
+			// is appended over their heights; what was served before for those heights is no store data any more
+			r.Kind = "rollback"
+		}
 	case 11, 12:
 		// hash of one of the first four headers of the initial store, pruned or not by now
 		r.Kind = "hash"
@@ -324,9 +329,31 @@ func runC10(t *testing.T, s C10Scenario) (res Result) {
 			res.failf("HARNESS: connect: %v", err)
 			return
 		}
-		nBoundary, nPruned := 0, 0
+		nBoundary, nPruned, nRolled := 0, 0, 0
 		tail := s.Tail
 		for i, r := range s.Reqs {
+			if r.Kind == "rollback" {
+				k := uint64(max(r.HashAt, 1))
+				if from := head + 1 - k; k <= head && from > tail && from > 1 {
+					nchain := forkChain(chain, from, uint32(7000+i))
+					ctx, cancel := vctx(30 * time.Second)
+					err := st.DeleteRange(ctx, from, head+1)
+					if err == nil {
+						err = st.Append(ctx, nchain.Range(from, head+1)...)
+					}
+					if err == nil {
+						err = st.Sync(ctx)
+					}
+					cancel()
+					if err != nil {
+						res.failf("HARNESS: step #%d: roll-back to %d and append of the other branch: %v", i, from-1, err)
+						return
+					}
+					chain = nchain
+					nRolled++
+				}
+				continue
+			}
 			if r.Kind == "prune" {
 				to := min(tail+uint64(max(r.HashAt, 1)), head) // keeps the head
 				if to > tail {
@@ -400,11 +427,29 @@ func runC10(t *testing.T, s C10Scenario) (res Result) {
 		if nPruned > 0 {
 			res.label("pruned_between_requests")
 		}
+		if nRolled > 0 {
+			res.label("head_rolled_back_between_requests")
+		}
 		if nBoundary > 0 {
 			res.label("boundary_request_on_pruned_store")
 		}
 	})
 	return res
+}
+
+// forkChain returns a chain that shares c's headers below from and carries another branch (same heights and
+// times, other content, valid links) from there on.
+func forkChain(c *vh.Chain, from uint64, salt uint32) *vh.Chain {
+	n := &vh.Chain{Spec: c.Spec}
+	n.Headers = append(n.Headers, c.Headers[:from-1]...)
+	for i := int(from - 1); i < len(c.Headers); i++ {
+		h := c.Headers[i].Clone()
+		h.Salt = salt
+		h.Prev = n.Headers[i-1].Hash()
+		h.Seal()
+		n.Headers = append(n.Headers, h)
+	}
+	return n
 }
 
 // decodeDelimited decodes a uvarint-length-prefixed HeaderRequest from raw bytes.
